@@ -623,7 +623,13 @@ async fn body(sc: &EvSc, bounds: Bounds, prop: &str) -> Obs {
 		match prop {
 			"C01" => c01_end(sc, main_done),
 			"C02" => {
+				// "all accepted events that arrive within the window are in that batch"
+				// includes that none of them is lost or duplicated
 				c01_end(sc, main_done);
+				let vs = w(|x| std::mem::take(&mut x.violations));
+				for (k, d) in vs {
+					push(k.replace("C01/", "C02/conservation/"), d);
+				}
 				c02_end(sc, default_schedule);
 			}
 			"C15" => {
